@@ -92,6 +92,44 @@ theorem bit_unset_exact (d : Nat → Nat) (hd : ∀ k, k < 4 → d k < 256) (b :
     have : i ≠ b := by intro e; subst e; exact hki rfl
     simp [this]
 
+/-- two 32-bit words with the same 32 bits are equal -/
+theorem word_ext (x y : Nat) (hx : x < 2 ^ 32) (hy : y < 2 ^ 32) (h : ∀ i, i < 32 → x.testBit i = y.testBit i) : x = y := by
+  apply Nat.eq_of_testBit_eq
+  intro i
+  by_cases hi : i < 32
+  · exact h i hi
+  · have h1 : x < 2 ^ i := Nat.lt_of_lt_of_le hx (Nat.pow_le_pow_right (by decide) (by omega))
+    have h2 : y < 2 ^ i := Nat.lt_of_lt_of_le hy (Nat.pow_le_pow_right (by decide) (by omega))
+    rw [Nat.testBit_lt_two_pow h1, Nat.testBit_lt_two_pow h2]
+
+/-- setting a clear bit and clearing it again gives back the original word: `set_bit` / `unset_bit` are
+    inverse to each other on every value and every index -/
+theorem bit_set_unset_roundtrip (d : Nat → Nat) (hd : ∀ k, k < 4 → d k < 256) (b : Nat) (hb : b < 32)
+    (hclear : (word d).testBit b = false) :
+    ∃ d' d'', setBitD d b = some d' ∧ unsetBitD d' b = some d'' ∧ word d'' = word d := by
+  obtain ⟨d', h1, hd', ht'⟩ := bit_set_exact d hd b hb hclear
+  have hset : (word d').testBit b = true := by rw [ht' b hb]; simp
+  obtain ⟨d'', h2, hd'', ht''⟩ := bit_unset_exact d' hd' b hb hset
+  refine ⟨d', d'', h1, h2, word_ext _ _ (word_lt _ hd'') (word_lt _ hd) ?_⟩
+  intro i hi
+  rw [ht'' i hi, ht' i hi]
+  by_cases e : i = b
+  · subst e; simp [hclear]
+  · simp [e]
+
+/-- … and the other way round -/
+theorem bit_unset_set_roundtrip (d : Nat → Nat) (hd : ∀ k, k < 4 → d k < 256) (b : Nat) (hb : b < 32)
+    (hset : (word d).testBit b = true) :
+    ∃ d' d'', unsetBitD d b = some d' ∧ setBitD d' b = some d'' ∧ word d'' = word d := by
+  obtain ⟨d', h1, hd', ht'⟩ := bit_unset_exact d hd b hb hset
+  have hclear : (word d').testBit b = false := by rw [ht' b hb]; simp
+  obtain ⟨d'', h2, hd'', ht''⟩ := bit_set_exact d' hd' b hb hclear
+  refine ⟨d', d'', h1, h2, word_ext _ _ (word_lt _ hd'') (word_lt _ hd) ?_⟩
+  intro i hi
+  rw [ht'' i hi, ht' i hi]
+  by_cases e : i = b
+  · subst e; simp [hset]
+  · simp [e]
 theorem decide_ne_eq_bne (a b : Nat) : decide (a ≠ b) = (a != b) := by
   by_cases h : a = b <;> simp [h]
 
